@@ -29,9 +29,8 @@ def rooted_at_self(ev):
 
 
 def run(ctx):
-    from .configtime import no_lazily_filled_attributes as _no_lazy, no_state_outside_objects as _no_state2
-    _no_lazy(ctx, 'C04.R1', ('Slicer', 'PlateSlicer', 'Plate', 'Container'))
-    _no_state2(ctx, 'C04.R1', classes=('Slicer', 'PlateSlicer', 'Plate', 'Container'))
+    from .configtime import derived_values as _derived
+    _derived(ctx, 'C04.R1', ('Slicer', 'PlateSlicer', 'Plate', 'Container'))
     from .configtime import no_shared_mutable_defaults as _mutdef
     _mutdef(ctx, 'C04.R1', classes=None)
     model = ctx.model
